@@ -130,6 +130,12 @@ impl Store {
         self.inner.lock().unwrap().fault_at = at;
     }
 
+    /// a failure is configured (whether it has struck yet or not)
+    pub fn fault_configured(&self) -> bool {
+        let g = self.inner.lock().unwrap();
+        g.fault_at.is_some() || g.faults_injected > 0
+    }
+
     pub fn faults_injected(&self) -> u64 {
         self.inner.lock().unwrap().faults_injected
     }
